@@ -13,7 +13,9 @@ package c16
 
 import (
 	"fmt"
+	"math"
 	"strings"
+	"time"
 
 	"verif/harness/internal/hx"
 	"verif/harness/metax"
@@ -130,7 +132,7 @@ func (t *tracker) step(in *metax.Inst, cmd metax.Cmd) bool {
 				t.idxPruned = true
 			}
 		case "CreateShardGroup":
-			if strings.Contains(cmd.Text, " -92233720") {
+			if startBeforeInt64Range(in) {
 				t.farPast = true
 			}
 			if t.durChanged || t.cancelled || strings.Contains(strings.Join(t.hist, "|"), "DeleteShardGroup") {
@@ -191,6 +193,22 @@ func groupFacts(in *metax.Inst) (map[string]int, map[string]int64) {
 		}
 	}
 	return live, dur
+}
+
+// startBeforeInt64Range: some group starts before the earliest instant an int64 nanosecond
+// count can express (its UnixNano, and therefore its persisted form, wraps around).
+func startBeforeInt64Range(in *metax.Inst) bool {
+	min := time.Unix(0, math.MinInt64)
+	for _, db := range in.Data().Databases {
+		for _, rp := range db.RetentionPolicies {
+			for i := range rp.ShardGroups {
+				if rp.ShardGroups[i].StartTime.Before(min) {
+					return true
+				}
+			}
+		}
+	}
+	return false
 }
 
 func tail(xs []string, n int) []string {
